@@ -94,7 +94,9 @@ func typeNameFor(name string) string { return "DPT_" + strings.ReplaceAll(name, 
 
 // judgeName: form, producibility, dynamic type. produced is the dynamic type string.
 func judgeName(name string) (out []outcome, produced string) {
-	add := func(class, format string, a ...interface{}) { out = append(out, outcome{class, fmt.Sprintf(format, a...)}) }
+	add := func(class, format string, a ...interface{}) {
+		out = append(out, outcome{class, fmt.Sprintf(format, a...)})
+	}
 	m := nameForm.FindStringSubmatch(name)
 	formOK := false
 	if m != nil {
@@ -318,7 +320,9 @@ func ptrOf(d dpt.Datapoint) uintptr { return reflect.ValueOf(d).Pointer() }
 // judgeIndependence: nontrivial reports that a non-zero payload was decoded into the first
 // instance. useProto: compare with the prototype of the registry map as well.
 func judgeIndependence(name string, useProto bool) (out []outcome, nontrivial bool) {
-	add := func(class, format string, a ...interface{}) { out = append(out, outcome{class, fmt.Sprintf(format, a...)}) }
+	add := func(class, format string, a ...interface{}) {
+		out = append(out, outcome{class, fmt.Sprintf(format, a...)})
+	}
 	var made []dpt.Datapoint // everything produced here stays reachable, so no address is reused
 	fresh := func(what string) dpt.Datapoint {
 		d, ok, pv := produce(name)
@@ -791,11 +795,22 @@ func run(r *enumlib.Run) {
 	for i := 0; i+1 < len(quickReps); i += 2 {
 		quickPairs = append(quickPairs, [2]string{quickReps[i], quickReps[i+1]})
 	}
-	if r.Thorough() {
+	var famPairs [][2]string // the first name of every main number with the next name
+	lastFam := ""
+	for i, n := range names {
+		if fam := strings.SplitN(n, ".", 2)[0]; fam != lastFam {
+			lastFam = fam
+			famPairs = append(famPairs, allPairs[i])
+		}
+	}
+	c.interleavings("interleavings-2x2", allPairs, 2, "every registered name a with the next name b")
+	switch {
+	case r.Thorough() && os.Getenv("C19_ALLPAIRS") == "1":
 		c.interleavings("interleavings-3x2", allPairs, 3, "every registered name a with the next name b")
+	case r.Thorough():
+		c.interleavings("interleavings-3x2-families", famPairs, 3, "the first name a of every main number with the next name b")
 		c.interleavings("interleavings-3x2-kinds", kindPairs, 3, "the first name a of every Go kind of datapoint type with the first name b of the next kind")
-	} else {
-		c.interleavings("interleavings-2x2", allPairs, 2, "every registered name a with the next name b")
+	default:
 		c.interleavings("interleavings-3x2-kinds", quickPairs, 3, "the first names of the Go kinds bool, float32, string, struct in the order of the sorted name list, paired two by two")
 	}
 
